@@ -294,6 +294,20 @@ def bracket_literal_paren_variants(tokens):
             tokens[end + 1:]
 
 
+def key_paren_variants(tokens):
+    """wrap the key of one map entry in redundant parentheses when it is a
+    single token: <<<a => 1>>> -> <<<(a) => 1>>> (a bare name stays the
+    string of that name)"""
+    for k in range(len(tokens) - 1):
+        t = tokens[k]
+        if tokens[k + 1] != "=>" or k == 0 or \
+                tokens[k - 1] not in ("<<<", ","):
+            continue
+        if not (t[0].isalnum() or t[0] in "_'\""):
+            continue
+        yield tokens[:k] + ["(", t, ")"] + tokens[k + 1:]
+
+
 def element_paren_variants(tokens):
     """wrap one complete positional call argument or one list-literal
     element in redundant parentheses: f(a + 1, g(x)) -> f((a + 1), g(x))"""
